@@ -221,3 +221,39 @@ pub fn closed_tcp_port(ip: IpAddr) -> Option<u16> {
     drop(l);
     Some(p)
 }
+
+/// Transport fidelity: replays a case whose scripted run succeeded over real loopback sockets, with a fresh
+/// responder from `make`, and demands the same value. A differing run is retried twice with a fresh server
+/// (datagrams can be dropped under load); a persistent difference is a harness error (the scripted transport
+/// would not be a faithful stand-in). A timeout on the real sockets is tolerated and not counted.
+pub fn fidelity<T: PartialEq>(
+    what: &str,
+    proto: Proto,
+    make: impl Fn() -> Box<dyn Responder> + Send + Clone + 'static,
+    scripted: &crate::wire::Run<T>,
+    read_ms: u64,
+    call: impl Fn(SocketAddr, Option<gamedig::protocols::types::TimeoutSettings>) -> gamedig::GDResult<T>,
+    validated: &std::sync::atomic::AtomicU64,
+) {
+    let crate::wire::Ended::Ok(want) = &scripted.ended else { return };
+    let lo: IpAddr = std::net::Ipv4Addr::LOCALHOST.into();
+    let mut last = String::new();
+    for attempt in 0 .. 3u64 {
+        let mk = make.clone();
+        let Some(real) = RealServer::start(proto, lo, Box::new(move || mk())) else { return };
+        let d = Duration::from_millis(read_ms * (attempt + 1));
+        let t = gamedig::protocols::types::TimeoutSettings::new(Some(d), Some(d), Some(Duration::from_secs(3)), 0).ok();
+        let r = crate::wire::run_plain(|| call(real.addr, t));
+        match &r.ended {
+            crate::wire::Ended::Ok(got) if got == want => {
+                validated.fetch_add(1, Ordering::Relaxed);
+                return;
+            }
+            crate::wire::Ended::Err(gamedig::GDErrorKind::PacketReceive) => last = "PacketReceive".into(),
+            other => last = other.kind_str(),
+        }
+    }
+    if last != "PacketReceive" {
+        panic!("transport fidelity ({what}): the scripted wire gives Ok but real loopback sockets give {last}");
+    }
+}
